@@ -12,6 +12,7 @@ use vcommon::{Check, Chooser, RunOutcome, Tier};
 pub struct C02 {
     pub family: &'static str,
     pub faults: bool,
+    pub p2p: bool,
     pub quick_runs: u64,
     pub thorough_runs: u64,
 }
@@ -53,7 +54,7 @@ impl Check for C02 {
         // half of the nominal time 60 s + 150 I to get below the bound for good. A servo change
         // that slows convergence moves whole classes of runs, not single seeds.
         let mut v = Vec::new();
-        if self.faults {
+        if self.faults || self.p2p {
             return v;
         }
         for class in [-3i8, -2, -1, 0, 1] {
@@ -82,6 +83,8 @@ impl Check for C02 {
         let announce_log = *ch.pick(S_CFG, &[0i8, 1, -1]);
         let quantum = *ch.pick(S_CFG, &[0u64, 1, 8]);
         let one_step_ref = ch.chance(S_CFG, 1, 3);
+        // peer-to-peer delay mechanism on the link (both ends) instead of end-to-end
+        let p2p = self.p2p;
         let offset_ns = ch.irange(S_CFG, -10_000_000_000, 10_000_000_000);
         // boundary lattice for the offset on some runs
         let offset_ns = match ch.choose(S_CFG, 8) {
@@ -107,6 +110,7 @@ impl Check for C02 {
         ports.receipt_timeout = 3;
         ports.segment = Some(seg);
         ports.filter = FilterKind::Kalman;
+        ports.p2p = p2p;
 
         let base: i128 = REF_EPOCH as i128;
         let mut refm: Option<RefMaster> = None;
@@ -263,7 +267,7 @@ impl Check for C02 {
         let params = json!({
             "delay_us": (delay / US) as u64, "jitter_us": (jitter / US) as u64, "sync_log": sync_log, "delay_log": delay_log, "announce_log": announce_log,
             "quantum_ns": quantum, "one_step_reference_master": one_step_ref, "initial_offset_ns": offset_ns, "relative_drift_ppm": rel_drift_ppt as f64 / 1e6,
-            "faults": self.faults, "bound_ns": bound as f64 / NS as f64, "worst_offset_ns_after_settle": worst as f64 / NS as f64,
+            "faults": self.faults, "p2p": p2p, "bound_ns": bound as f64 / NS as f64, "worst_offset_ns_after_settle": worst as f64 / NS as f64,
             "slave_at_s": t_slave.map(tt_to_secs), "checked_from_s": check_from.map(tt_to_secs), "evaluations": evals,
         });
         let key = format!("sync_log={sync_log} one_step={one_step_ref} faults={}", self.faults);
@@ -291,7 +295,7 @@ impl Check for C02 {
         }
         // settle-time statistic for the batch-level oracle: last instant (since slave) at which the
         // bound was exceeded, in 20ths of the nominal time 60 s + 150 I
-        if !self.faults && t_slave.is_some() {
+        if !self.faults && !self.p2p && t_slave.is_some() {
             let nominal = 60 * SEC + 150 * sync_units;
             let bin = (last_bad_any * 20 / nominal).min(99);
             let class = sync_log.max(delay_log);
